@@ -109,3 +109,49 @@ def compare_residual(rep, model, which, ref, flat_eqs, case, text, extra_assume=
 
 def _viol(rep, case, what, text, detail):
     rep.violation(case, what, {"model_text": text, "detail": detail})
+
+
+def compare_functions(rep, fa, fb, in_names, case, text, what, timeout_ms=10000, extra=None):
+    """z3: for all inputs, every output element of fa equals that of fb (same order, same shape).
+    A sat answer is replayed numerically on the two real Functions before being reported."""
+    if fa.n_out() != fb.n_out():
+        _viol(rep, f"{case}:{what}:n_out", f"{what}: {fa.n_out()} vs {fb.n_out()} outputs", text, extra)
+        return 0
+    if [fa.size_in(i) for i in range(fa.n_in())] != [fb.size_in(i) for i in range(fb.n_in())]:
+        _viol(rep, f"{case}:{what}:in-shape", f"{what}: input shapes differ", text, extra)
+        return 0
+    div = ops.Divisors()
+    za, _ = function_terms(fa, in_names, div)
+    zb, _ = function_terms(fb, in_names, div)
+    assume = div.nonzero()
+    n = 0
+    for o, (a, b) in enumerate(zip(za, zb)):
+        if a["shape"] != b["shape"]:
+            _viol(rep, f"{case}:{what}:out{o}:shape", f"{what} output {o}: shape {a['shape']} vs {b['shape']}", text, extra)
+            continue
+        for k, (ta, tb) in enumerate(zip(a["dense"], b["dense"])):
+            n += 1
+            if ta.get_id() == tb.get_id():
+                rep.count("unsat")
+                continue
+            r, m = equiv.check(rep, assume + [ta != tb], timeout_ms)
+            if r == "unknown":
+                rep.note_inconclusive(f"{case}:{what}:out{o}[{k}] solver unknown")
+            elif r == "sat":
+                pt = equiv.point_from_model(m, [ta, tb])
+                confirmed = None
+                for p in equiv.perturbations(pt, 0):
+                    try:
+                        va = modelio.eval_function(fa, in_names, p)[o][k]
+                        vb = modelio.eval_function(fb, in_names, p)[o][k]
+                    except Exception:
+                        continue
+                    if not equiv.close(va, vb):
+                        confirmed = {"point": p, "a": va, "b": vb}
+                        break
+                if confirmed:
+                    _viol(rep, f"{case}:{what}:out{o}[{k}]", f"{what} output {o} element {k} differs between configurations", text,
+                          dict(confirmed, **(extra or {})))
+                else:
+                    rep.note_inconclusive(f"{case}:{what}:out{o}[{k}] sat did not replay numerically")
+    return n
